@@ -93,6 +93,25 @@ def b(ck: Check) -> None:
                             "chaotic-iteration shape and cannot decide another algorithm")
     wl = whiles[0]
     flag, cont = form
+    acc_merged = False
+    if cont == "acc":
+        # the round's findings are collected in `flag` and merged into the result after the scan: that merge must lie on
+        # every path from the scan to the next round
+        from .c13 import _within
+        merges = [n for n in fm.cfg.nodes if n.kind == "stmt" and n.id in fm.cfg.loop_nodes[wl] and (
+            (isinstance(n.ast, ast.Expr) and isinstance(n.ast.value, ast.Call) and isinstance(n.ast.value.func, ast.Attribute)
+             and n.ast.value.func.attr == "update" and n.ast.value.args and text(n.ast.value.args[0]) == flag) or
+            (isinstance(n.ast, ast.AugAssign) and isinstance(n.ast.op, ast.BitOr) and text(n.ast.value) == flag) or
+            (isinstance(n.ast, ast.Assign) and isinstance(n.ast.value, ast.BinOp) and isinstance(n.ast.value.op, ast.BitOr)
+             and text(n.ast.value.right) == flag and text(n.ast.value.left) == text(n.ast.targets[0])))]
+        if merges:
+            m0 = merges[0]
+            mt = text(m0.ast.value.func.value) if isinstance(m0.ast, ast.Expr) else text(m0.ast.target if isinstance(m0.ast, ast.AugAssign) else m0.ast.targets[0])
+            inner_for = [n for n in wl.body if isinstance(n, ast.For)]
+            if inner_for:
+                ihdr = fm.cfg.loop_header[inner_for[0]]
+                if fm.cfg.loop_header[wl].id not in _within(fm, wl, ihdr, {m.id for m in merges}) - set():
+                    acc_merged = mt
     inner = [n for n in wl.body if isinstance(n, ast.For)]
     if len(inner) != 1:
         raise AnalysisError("percolate_space_strict: a round is not one scan over the candidate variables")
@@ -180,6 +199,10 @@ def b(ck: Check) -> None:
                     stores[text(a_.targets[0].value)] = (text(a_.targets[0].slice), text(a_.value))
                 if isinstance(a_, ast.Assign) and text(a_.targets[0]) == flag and isinstance(a_.value, ast.Constant) and a_.value.value is cont:
                     flagged = True
+                if cont == "acc" and isinstance(a_, ast.Assign) and isinstance(a_.targets[0], ast.Subscript) and text(a_.targets[0].value) == flag:
+                    flagged = True       # something was found in this round
+                    if acc_merged and acc_merged == res:
+                        stores[res] = (text(a_.targets[0].slice), text(a_.value))   # enters the result through the merge
                 for c_ in ast.walk(a_) if not isinstance(a_, (ast.FunctionDef, ast.ClassDef)) else []:
                     if isinstance(c_, ast.Call) and isinstance(c_.func, ast.Attribute) and c_.func.attr in ("remove", "discard") \
                             and text(c_.func.value) == cand:
@@ -219,7 +242,7 @@ def b(ck: Check) -> None:
     ck.ob("B", fm, il, not probs and not fix_probs, "; ".join(probs + sorted(set(fix_probs))) if (probs or fix_probs) else
           "values stored only when determined and not in conflict with a given value; result = newly fixed values; "
           "undetermined variables stay candidates; every new value triggers another round", key="stores")
-    ck.ob("B", fm, wl, True, f"flag-controlled rounds (`{flag}` continues with {cont})", key="fixpoint")
+    ck.ob("B", fm, wl, True, f"flag-controlled rounds (`{flag}` continues with {cont if cont != 'acc' else 'a non-empty round'})", key="fixpoint")
 
 
 def c(ck: Check) -> None:
@@ -250,7 +273,22 @@ def c(ck: Check) -> None:
                     return split(x.orelse, at2, cnd)
                 c_ = se.translator(at2).f(x.test)
                 return split(x.body, at2, logic.And(cnd, c_)) + split(x.orelse, at2, logic.And(cnd, logic.Not(c_)))
-            return [(cnd, se.val(e, at) if e is not None else "None")]
+            return split_tok(se.val(e, at) if e is not None else "None", cnd)
+
+        def split_tok(tok: str, cnd):
+            """a conditional value that only exists as a token (the returned local has several definitions)"""
+            from .symstr import _balanced, _split_top
+            if tok.startswith("ite(") and _balanced(tok, 3) == len(tok):
+                parts = _split_top(tok[4:-1])
+                if len(parts) == 3:
+                    known = se.assume.get(parts[0])
+                    if known is True:
+                        return split_tok(parts[1], cnd)
+                    if known is False:
+                        return split_tok(parts[2], cnd)
+                    c_ = logic.B("T:" + parts[0])
+                    return split_tok(parts[1], logic.And(cnd, c_)) + split_tok(parts[2], logic.And(cnd, logic.Not(c_)))
+            return [(cnd, tok)]
 
         outcomes = []
         for r in own_walk(f.node):
